@@ -25,7 +25,7 @@ from vlib import f2b, fs2b, b2f, b2fs
 from props import c01
 
 ID = "C03"
-GEN = ["Dist", "Combinators", "Leaves", "Misc", "Params", "Flows"]
+GEN = ["Dist", "Combinators", "Leaves", "Misc", "Params", "Flows", "JaxTransforms"]
 RULE = ("nested Transformed(StandardNormal, tree) of depth 1-3 over random scalar bijection trees (conditional via AdditiveCondition, "
         "and unconditional), private methods _log_prob/_sample/_sample_and_log_prob and public log_prob, plus merge_transforms(); "
         "premade flows (coupling, MAF, planar) x invert x conditional: orientation by structural introspection, and — against the GENERATED "
